@@ -44,10 +44,7 @@ def Stmt.render (lvl : Nat) : Stmt → List S
   | .comment t => [indent lvl ++ t]
   | .exit t _ => [indent lvl ++ t]
   | .if_ c _ thn elifs els =>
-      (indent lvl ++ "if ".toList ++ c ++ [':']) :: renderList (lvl + 1) thn ++ renderElifs lvl elifs ++
-        (match els with
-         | none => []
-         | some e => (indent lvl ++ "else:".toList) :: renderList (lvl + 1) e)
+      (indent lvl ++ "if ".toList ++ c ++ [':']) :: renderList (lvl + 1) thn ++ renderElifs lvl elifs ++ renderElse lvl els
   | .for_ t it _ body => (indent lvl ++ "for ".toList ++ t ++ " in ".toList ++ it ++ [':']) :: renderList (lvl + 1) body
   | .try_ body exc _ asName handler =>
       (indent lvl ++ "try:".toList) :: renderList (lvl + 1) body ++
@@ -59,33 +56,46 @@ def renderList (lvl : Nat) : List Stmt → List S
 def renderElifs (lvl : Nat) : List (S × List S × List Stmt) → List S
   | [] => []
   | (c, _, body) :: r => (indent lvl ++ "elif ".toList ++ c ++ [':']) :: renderList (lvl + 1) body ++ renderElifs lvl r
+def renderElse (lvl : Nat) : Option (List Stmt) → List S
+  | none => []
+  | some e => (indent lvl ++ "else:".toList) :: renderList (lvl + 1) e
 end
 
 /-! ### scoping -/
+
+/-- `except X as n`: the name the handler binds -/
+def asNames : Option S → List S
+  | some n => [n]
+  | none => []
 
 mutual
 def Stmt.writes : Stmt → List S
   | .line parts => parts.flatMap (·.writes)
   | .comment _ => []
   | .exit _ _ => []
-  | .if_ _ _ thn elifs els => writesList thn ++ writesElifs elifs ++ (match els with | none => [] | some e => writesList e)
+  | .if_ _ _ thn elifs els => writesList thn ++ writesElifs elifs ++ writesElse els
   | .for_ t _ _ body => t :: writesList body
-  | .try_ body _ _ asName handler => writesList body ++ (match asName with | some n => [n] | none => []) ++ writesList handler
+  | .try_ body _ _ asName handler => writesList body ++ asNames asName ++ writesList handler
 def writesList : List Stmt → List S
   | [] => []
   | s :: r => s.writes ++ writesList r
 def writesElifs : List (S × List S × List Stmt) → List S
   | [] => []
   | (_, _, body) :: r => writesList body ++ writesElifs r
+def writesElse : Option (List Stmt) → List S
+  | none => []
+  | some e => writesList e
 end
 
 structure Scope where
   locals : List S       -- the parameter and every name bound anywhere in the body
   outer : List S        -- closure names, globals of the generated function, builtins
 
-/-- Python's rule -/
+/-- may `n` be read when `asg` is definitely assigned?  A name assigned anywhere in the body is local and must be definitely assigned;
+any other name must come from the closure, the globals or the builtins.  (As in `GenDump`: written with `asg.contains n` first, which
+is Python's rule whenever `asg ⊆ locals` — the checker only ever adds names the body binds.) -/
 def Scope.readOk (sc : Scope) (asg : List S) (n : S) : Bool :=
-  if sc.locals.contains n then asg.contains n else sc.outer.contains n
+  asg.contains n || (!sc.locals.contains n && sc.outer.contains n)
 
 def Scope.readsOk (sc : Scope) (asg : List S) (ns : List S) : Bool := ns.all (sc.readOk asg)
 
@@ -115,8 +125,7 @@ def Stmt.check (sc : Scope) (asg : List S) : Stmt → Option Flow
   | .exit _ rs => if sc.readsOk asg rs then some none else none
   | .if_ _ cr thn elifs els =>
       if sc.readsOk asg cr then
-        match checkList sc asg thn, checkElifs sc asg elifs,
-              (match els with | none => some (some asg) | some e => checkList sc asg e) with
+        match checkList sc asg thn, checkElifs sc asg elifs, checkElse sc asg els with
         | some a, some b, some c => some ((a.meet b).meet c)
         | _, _, _ => none
       else none
@@ -129,7 +138,7 @@ def Stmt.check (sc : Scope) (asg : List S) : Stmt → Option Flow
   | .try_ body _ er asName handler =>
       if sc.readsOk asg er then
         match checkList sc asg body,
-              checkList sc (safePrefixWrites body ++ (match asName with | some n => [n] | none => []) ++ asg) handler with
+              checkList sc (safePrefixWrites body ++ asNames asName ++ asg) handler with
         | some a, some b => some (a.meet b)
         | _, _ => none
       else none
@@ -151,6 +160,10 @@ def checkElifs (sc : Scope) (asg : List S) : List (S × List S × List Stmt) →
       | some a, some b => some (a.meet b)
       | _, _ => none
     else none
+/-- no `else`: the path on which no condition holds falls through unchanged -/
+def checkElse (sc : Scope) (asg : List S) : Option (List Stmt) → Option Flow
+  | none => some (some asg)
+  | some e => checkList sc asg e
 end
 
 /-! ### the generator -/
@@ -252,17 +265,23 @@ def loopBlock (g : LIn) : Stmt :=
        [] none,
      .exit (t "raise") []]
 
-/-- the body of `cls_fromdict` -/
-def genBody (p : Char → Bool) (g : LIn) : List Stmt :=
+/-- the statements in front of the path block -/
+def headStmts (g : LIn) : List Stmt :=
   (if g.preFromDict then [Stmt.line [{ text := t "o = __pre_from_dict__(o)", reads := [t "__pre_from_dict__", t "o"], writes := [t "o"] }]] else [])
   ++ [Stmt.line [{ text := t "init_kwargs = {}", writes := [t "init_kwargs"] }]]
   ++ (match g.catchAll with | some _ => [Stmt.line [{ text := t "catch_all = {}", writes := [t "catch_all"] }]] | none => [])
-  ++ (if g.paths.isEmpty then [] else
-      [Stmt.try_ (g.paths.map (pathStmt p)) (t "ParseError") [t "ParseError"] (some (t "e"))
-        [.line [{ text := t "e.class_name, e.field_name, e.json_object, e.fields = cls, field, o, cls_fields",
-                  reads := [t "cls", t "field", t "o", t "cls_fields", t "e", t "e", t "e", t "e"] }],
-         .exit (t "raise") []]])
-  ++ (if g.loopOverO then [loopBlock g] else [])
+
+/-- the path block: one line per field with a JSON path, inside `try … except ParseError as e` -/
+def pathBlock (p : Char → Bool) (g : LIn) : List Stmt :=
+  if g.paths.isEmpty then [] else
+    [Stmt.try_ (g.paths.map (pathStmt p)) (t "ParseError") [t "ParseError"] (some (t "e"))
+      [.line [{ text := t "e.class_name, e.field_name, e.json_object, e.fields = cls, field, o, cls_fields",
+                reads := [t "cls", t "field", t "o", t "cls_fields", t "e", t "e", t "e", t "e"] }],
+       .exit (t "raise") []]]
+
+/-- the statements behind the path block: the key loop, the catch-all entry, the constructor call -/
+def tailStmts (p : Char → Bool) (g : LIn) : List Stmt :=
+  (if g.loopOverO then [loopBlock g] else [])
   ++ (match g.catchAll with
       | some (f, true) => [Stmt.if_ (t "catch_all") [t "catch_all"]
           [.line [{ text := t "init_kwargs[" ++ pyRepr p f ++ t "] = catch_all", reads := [t "catch_all", t "init_kwargs"] }]] [] none]
@@ -271,6 +290,9 @@ def genBody (p : Char → Bool) (g : LIn) : List Stmt :=
   ++ [Stmt.try_ [.exit (t "return cls(**init_kwargs)") [t "cls", t "init_kwargs"]] (t "TypeError") [t "TypeError"] (some (t "e"))
         [.exit (t "raise MissingFields(e, o, cls, cls_fields, init_kwargs) from None")
           [t "MissingFields", t "e", t "o", t "cls", t "cls_fields", t "init_kwargs"]]]
+
+/-- the body of `cls_fromdict` -/
+def genBody (p : Char → Bool) (g : LIn) : List Stmt := headStmts g ++ (pathBlock p g ++ tailStmts p g)
 
 def genCode (p : Char → Bool) (g : LIn) : S := joinWith ['\n'] (renderList 1 (genBody p g))
 
